@@ -97,6 +97,7 @@ static void do_fork(Kernel *k, Thread *t) {
   for (auto &e : c->fds) if (e.ofd) k->ofd_ref(e.ofd);
   c->cwd = k->caller->cwd;
   memcpy(c->disp, k->caller->disp, sizeof c->disp);
+  memcpy(c->sa_flags, k->caller->sa_flags, sizeof c->sa_flags);
   c->rlim_cur = k->caller->rlim_cur;
   c->rlim_max = k->caller->rlim_max;
   c->mask = t->mask;
@@ -456,6 +457,7 @@ void child_phase_end_forkmode() {
   img->mask = c->mask;
   img->umask_ = c->umask_;
   memcpy(img->disp, c->disp, sizeof img->disp);
+  memcpy(img->sa_flags, c->sa_flags, sizeof img->sa_flags);
   img->t_ns = K->now_ns;
   for (char **e = environ; e && *e; e++) img->envp.push_back(*e);  // what the forked copy of the caller continues with
   for (size_t fd = 0; fd < c->fds.size(); fd++) {
